@@ -27,18 +27,19 @@ CONSTANTS MaxItems, MaxN, Kinds, OneCfg, MaxOpt
 VARIABLES doc, cfg, c, opos, ranch, cur, pages, phase
 vars == <<doc, cfg, c, opos, ranch, cur, pages, phase>>
 
-AllKinds == {"p", "table", "float", "abs", "fixed", "running", "ib", "cols", "flex", "list", "pre", "grid", "rel", "span"}
+AllKinds == {"p", "table", "float", "abs", "fixed", "running", "ib", "cols", "flex", "list", "pre", "grid", "rel", "span", "glue", "stack"}
 OutOfFlow == {"float", "abs"}
 Repeated == {"fixed", "running"}
 Item == [kind : Kinds, n : 1..MaxN, wrap : 0..MaxOpt, hdr : BOOLEAN, ftr : BOOLEAN, opt : 0..MaxOpt]
 WellFormed(it) == (it.kind # "table" => ~it.hdr /\ ~it.ftr) /\ (it.kind \in Repeated => it.n = 1 /\ it.wrap = 0 /\ it.opt = 0)
 \* page capacity in lines, container width in em, orphans = widows
-Cfg == IF OneCfg THEN {[H |-> 3, W |-> 6, ow |-> 1]} ELSE [H : 2..5, W : {6, 12}, ow : 1..2]
+Cfg == IF OneCfg THEN {[H |-> 3, W |-> 6, ow |-> 1]} ELSE [H : 2..5, W : {6, 12, 16, 20}, ow : 1..2]
 
 Tok(i, r, k) == [it |-> i, role |-> r, k |-> k]
 BodyToks(d, i) ==
   LET x == d[i] IN
-  CASE x.kind = "table"   -> [k \in 1..(2 * x.n) |-> Tok(i, 0, k)]
+  CASE x.kind = "table" -> [k \in 1..(2 * x.n) |-> Tok(i, 0, k)]          \* two cells per row
+    [] x.kind = "glue"  -> [k \in 1..(2 * x.n + 2) |-> Tok(i, 0, k)]
     [] x.kind = "fixed"   -> <<>>
     [] x.kind = "running" -> <<>>
     [] OTHER              -> [k \in 1..x.n |-> Tok(i, 0, k)]
